@@ -121,6 +121,9 @@ fn fmt_histories() -> u64 {
 
 /// index of the directed scenario (runs in every batch, after the random histories)
 const DIRECTED: u64 = 1_000_000;
+/// directed history with more than 256 regions (512-byte pages, 16-page regions, a few megabytes of data): region
+/// numbers above 255 exist, so that anything ordering or indexing regions by their encoded bytes shows
+const DIRECTED_MANY_REGIONS: u64 = 1_000_001;
 
 #[derive(Clone, Copy, PartialEq, Eq, Debug)]
 enum Kind {
@@ -152,6 +155,8 @@ struct H {
     opens: u64,
     m: BTreeMap<String, u64>,
     nontrivial: bool,
+    /// the next transactions load a few megabytes (directed many-regions history)
+    bulk_pending: u32,
 }
 
 impl H {
@@ -186,6 +191,7 @@ impl H {
             opens: 0,
             m: BTreeMap::new(),
             nontrivial: false,
+            bulk_pending: 0,
         }
     }
 
@@ -213,6 +219,10 @@ impl H {
     }
 
     fn load(&mut self) -> Load {
+        if self.bulk_pending > 0 {
+            self.bulk_pending -= 1;
+            return Load { keys: 6000, ops: 2600, max_val: 2400, big_val_permille: 0, delete_bias: 0 };
+        }
         let heavy = self.r.chance(1, 5);
         Load {
             keys: 30 + self.r.below(200),
@@ -739,11 +749,18 @@ fn main() {
     if only.is_none() || only == Some(DIRECTED) {
         todo.push(DIRECTED);
     }
+    if only.is_none() || only == Some(DIRECTED_MANY_REGIONS) {
+        todo.push(DIRECTED_MANY_REGIONS);
+    }
     let work = |i: u64| -> Block {
         let mut h = H::new(i, seed, offs);
         let len = if thorough { 20 + h.r.below(40) } else { 12 + h.r.below(24) };
         if i == DIRECTED {
             h.run_directed_unpublished_growth();
+        } else if i == DIRECTED_MANY_REGIONS {
+            h.cfg = Cfg { page_size: 512, region_size: Some(512 * 16), cache: 256 * 1024 };
+            h.bulk_pending = 1;
+            h.run(10);
         } else {
             h.run(len);
         }
